@@ -325,6 +325,8 @@ type pcState struct {
 	permits   chan struct{}
 	out       int // permits outstanding
 	offered   map[int64]bool
+	fed       int // hits of the pc.feed gate (the feeder is about to offer a message)
+	fedAtRead int // value of fed when the last read was permitted
 	msgClosed bool
 	errClosed bool
 	errs      []string
@@ -401,6 +403,13 @@ func run(c *gx.Ctl, p *Params) *gx.Outcome {
 		cl.AbortedOrder = func(ab [][2]int64) [][2]int64 { return permute(ab, p.AbOrder) }
 	}
 	c.AutoRelease = func(site string) bool { return !p.Gates[site] }
+	c.OnHit = func(site, topic string, n int32) {
+		if site == "pc.feed" && int(n) < len(r.pcs) {
+			r.mu.Lock()
+			r.pcs[n].fed++
+			r.mu.Unlock()
+		}
+	}
 	for i := 0; i < p.NParts; i++ {
 		part := cl.Part("t", int32(i))
 		bs, want := BuildLog(p, int32(i))
@@ -645,17 +654,20 @@ func (r *rig) actors() []gx.Actor {
 		if len(st.got) < len(exp) {
 			allDone = false
 			anyUndelivered = true
-			if st.out == 0 && len(st.offered) > len(st.got) {
+			// a message is at the hand-off when the interceptor chain's tracker saw it - or, should the chain have
+			// been skipped for it, when the feeder passed the pc.feed gate after the last read was permitted
+			if st.out == 0 && (len(st.offered) > len(st.got) || st.fed > st.fedAtRead) {
 				acts = append(acts, gx.Actor{Label: fmt.Sprintf("read:p%d", k), Rank: 2, Variants: []gx.Variant{{Do: func() {
 					r.mu.Lock()
 					st.out++
+					st.fedAtRead = st.fed
 					r.mu.Unlock()
 					st.permits <- struct{}{}
 				}}}})
 			}
 		}
 	}
-	if p.Slow && anyUndelivered && r.c.Trailing("tick:") < 3 && r.c.TrailingAny("Fetch.poll-expires", "tick:") < 5 {
+	if p.Slow && anyUndelivered && r.c.Trailing("tick:") < 3 && r.c.TrailingAny("Fetch.poll-expires", "tick:", "rel:bc.round") < 6 {
 		acts = append(acts, gx.Actor{Label: "tick:mpt", Rank: 3, Variants: []gx.Variant{{Do: func() { time.Sleep(100 * time.Millisecond) }}}})
 	}
 	if p.Move && !r.moved && p.NBrokers > 1 {
